@@ -120,6 +120,27 @@ def e_case(c):
                 refl = np.where(np.abs(gam) < 1e-9, (k ** 2) / (1 + k ** 2), (np.sinh(gam) ** 2 / (np.cosh(gam) ** 2 - d ** 2 / k ** 2)).real)
             ok = np.isfinite(refl)
             check(float(np.max(np.abs(A[ok] ** 2 - refl[ok]))) <= 1e-2, "uniform-spectrum!=closed-form", f"kL={kL:.3f} vd={vd:.2e} fs={fs:.3e}: max err {np.max(np.abs(A[ok] ** 2 - refl[ok])):.2e}")
+    # the same design on another grid, configured later in the same process: the response is computed for the grid now in force
+    if F == 0 and c["m"] == 0:
+        fs2 = fs * (0.5 if fs > 60e9 else 2.0)
+        gv(sps=16, fs=fs2, **kwg)
+        _, Hb = call_fbg(x, **base, **spec)
+        check(float(np.max(np.abs(Hb))) <= 1 + 5e-3, "fbg-not-passive", f"after fs {fs:.4g} -> {fs2:.4g}")
+        p_ = profile(apo, c["a"], c["b"])
+        integ_, _ = integrate.quad(p_, -0.5, 0.5, epsabs=1e-12, limit=200)
+        want_ = np.tanh(kL * integ_) ** 2
+        check(abs(np.abs(Hb[N // 2]) ** 2 - want_) <= 2e-2 * want_ + 1e-6, "bragg-reflectivity!=tanh^2(kL*int p)", f"after fs {fs:.4g} -> {fs2:.4g}: {np.abs(Hb[N // 2]) ** 2:.6f} vs {want_:.6f}")
+        if apo == "uniform":
+            f_ = fftshift(fftfreq(N)) * fs2
+            lam_ = CL / (f_ + f0)
+            d_ = 2 * np.pi * 1.45 * (1 / lam_ - 1 / lD) * L
+            k_ = np.pi * vd * L / lam_
+            gam_ = np.sqrt((k_ ** 2 - d_ ** 2).astype(complex))
+            with np.errstate(over="ignore", invalid="ignore"):
+                refl_ = np.where(np.abs(gam_) < 1e-9, (k_ ** 2) / (1 + k_ ** 2), (np.sinh(gam_) ** 2 / (np.cosh(gam_) ** 2 - d_ ** 2 / k_ ** 2)).real)
+            ok_ = np.isfinite(refl_)
+            check(float(np.max(np.abs(np.abs(Hb[ok_]) ** 2 - refl_[ok_]))) <= 1e-2, "uniform-spectrum!=closed-form", f"after fs {fs:.4g} -> {fs2:.4g}")
+        gv(sps=16, fs=fs, **kwg)
     g.verify()
     g.no_alias([("FBG.signal", y.signal)])
     g.release()
